@@ -43,7 +43,7 @@ def tmpId (pid : Nat) (second : Bool) : Nat := 2 * pid + (if second then 1 else 
 
 /-- the re-check after loading, for the template file `0` -/
 def regenNeeded (c : Content) : Bool :=
-  (magicRecheck && c.magic != magicNumber) || (fileRecheck && c.file != 0)
+  (magicRecheck && c.magic != magicNumber) || (fileRecheck && namesDiffer c.file 0)
 
 def CState.setPhase (st : CState) (pid : Nat) (ph : Phase) : CState :=
   { st with procs := fun q => if q = pid then { st.procs pid with phase := ph } else st.procs q }
